@@ -161,19 +161,26 @@ Flat(doc) == [doc EXCEPT !.templates = [t \in 1..Len(doc.templates) |->
 (*  - a URL without a port against a server whose declared port (literal, default or enum *)
 (*    value) is the default port of the URL's scheme (80 / 443): the same origin, written *)
 (*    differently -- neither router normalises, the statement does not say.               *)
-(* NOT open: a value outside the enum of a server variable (scheme, host label, port).    *)
-(* The enum is the declared set of values, so such a URL lies under no declared server.   *)
+(*  - a host label outside the enum of a host variable: by the OpenAPI reading it lies     *)
+(*    under no declared server, but the library's own suite (TestRouter of both router     *)
+(*    packages: d1 enum [example], https://domain0.domain1.com/... expected to be routed)  *)
+(*    pins the wildcard reading for host labels -- statement and suite disagree.           *)
+(* NOT open: a scheme or a port outside the enum of the variable in that position.  The    *)
+(* enum is the declared set of values, so such a URL lies under no declared server.        *)
 (* A variable without an enum is open-valued: a host variable matches any non-empty       *)
 (* label, a base-path variable any non-empty segment.                                     *)
 SrvMatchRest(s, u) ==
-   IF Len(u.host) # Len(s.host) THEN "no"
-   ELSE IF \E i \in 1..Len(s.host) : \/ IsLit(s.host[i]) /\ s.host[i].l # u.host[i]
-                                     \/ IsVar(s.host[i]) /\ (u.host[i] = "" \/ ~EnumOK(s.host[i], u.host[i])) THEN "no"
-   ELSE IF Len(s.port) = 0 THEN (IF Len(u.port) = 0 THEN "yes" ELSE "open")
-   ELSE IF Len(u.port) = 0 THEN (IF DefaultPort(u.scheme) \in DeclaredVals(s.port[1]) THEN "open" ELSE "no")
-   ELSE IF IsLit(s.port[1]) THEN (IF u.port[1] = s.port[1].l THEN "yes" ELSE "no")
-   ELSE IF u.port[1] = s.port[1].d THEN "yes"
-   ELSE IF EnumOK(s.port[1], u.port[1]) THEN "open" ELSE "no"
+   LET portM == IF Len(s.port) = 0 THEN (IF Len(u.port) = 0 THEN "yes" ELSE "open")
+                ELSE IF Len(u.port) = 0 THEN (IF DefaultPort(u.scheme) \in DeclaredVals(s.port[1]) THEN "open" ELSE "no")
+                ELSE IF IsLit(s.port[1]) THEN (IF u.port[1] = s.port[1].l THEN "yes" ELSE "no")
+                ELSE IF u.port[1] = s.port[1].d THEN "yes"
+                ELSE IF EnumOK(s.port[1], u.port[1]) THEN "open" ELSE "no"
+   IN IF Len(u.host) # Len(s.host) THEN "no"
+      ELSE IF \E i \in 1..Len(s.host) : \/ IsLit(s.host[i]) /\ s.host[i].l # u.host[i]
+                                        \/ IsVar(s.host[i]) /\ u.host[i] = "" THEN "no"
+      ELSE IF portM = "no" THEN "no"
+      ELSE IF \E i \in 1..Len(s.host) : IsVar(s.host[i]) /\ ~EnumOK(s.host[i], u.host[i]) THEN "open"
+      ELSE portM
 SrvMatch(s, u) ==
    IF ~s.abs THEN (IF u.abs /\ ~IsNone(s) THEN "open" ELSE "yes")
    ELSE IF ~u.abs THEN "no"
